@@ -64,6 +64,11 @@ FAMILIES = {
     "hqf": dict(profile=3, fsc=1, dh=0),
     "ldf": dict(profile=0, fsc=2, dh=0, sx=2, sy=2, pb=40),
     "asym": dict(profile=3, fsc=0, dh=1, wih=1),
+    # only the wavelet index differs (no horizontal-only levels), with each of the two being filter 0
+    "asym_idx_ho0": dict(profile=3, fsc=0, dh=0, wi=4, wih=0, qm={"0": {"LL": 0}, "1": {"HL": 1, "LH": 1, "HH": 2}}),
+    "asym_idx_2d0": dict(profile=3, fsc=0, dh=0, wi=0, wih=4, qm={"0": {"LL": 0}, "1": {"HL": 1, "LH": 1, "HH": 2}}),
+    # only the horizontal-only depth differs (same wavelet)
+    "asym_depth": dict(profile=3, fsc=0, dh=2, wih=4),
 }
 BASE_RECIPE = dict(base=0, cdf=0, pcm=0, ss=0, tff=True, w=8, h=4, fr=None, par=None, range=[0, 255, 128, 255], prim=None,
                    mat=None, tf=None, profile=3, lossless=False, wi=4, wih=4, d=1, dh=0, sx=2, sy=1, fsc=0, pb=48, qm=None,
@@ -78,8 +83,10 @@ def setup(ctx):
     for name, over in FAMILIES.items():
         r = copy.deepcopy(BASE_RECIPE)
         r.update(over)
-        if r["dh"]:
+        if r["dh"] == 1:
             r["qm"] = {"0": {"L": 0}, "1": {"H": 1}, "2": {"HL": 1, "LH": 1, "HH": 2}}
+        elif r["dh"] == 2:
+            r["qm"] = {"0": {"L": 0}, "1": {"H": 1}, "2": {"H": 1}, "3": {"HL": 1, "LH": 1, "HH": 2}}
         cf = configs.build_cf(r)
         pics = configs.build_pictures(r, cf["video_parameters"])
         seq = make_sequence(cf, pics)
@@ -418,7 +425,7 @@ def build_description(rng):
             sh["parse_parameters"]["major_version"] = AUTO
         else:
             sh["parse_parameters"].pop("major_version", None)
-        if fam in ("asym", "hqf", "ldf") and explicit_version is not None and explicit_version < 3 and npic and not default_pics:
+        if (fam.startswith("asym") or fam in ("hqf", "ldf")) and explicit_version is not None and explicit_version < 3 and npic and not default_pics:
             # encoder-made pictures of these families carry extended transform parameters, which have no
             # representation below version 3 (DESIGN section 7 item 11)
             explicit_version = 3
@@ -473,7 +480,7 @@ def build_description(rng):
                     minv = 3
                 else:
                     hd = du.setdefault("picture_parse", B.PictureParse()).setdefault("picture_header", B.PictureHeader()) if (mode != "omit" or "picture_parse" in du) else None
-                    if fam == "asym" and not default_pics:
+                    if fam.startswith("asym") and not default_pics:
                         minv = 3
                 if hd is not None:
                     hd.pop("picture_number", None)
